@@ -103,41 +103,53 @@ Failed      == Res("err", "")
 Versions(ch, cont, n) == SelectSeq(Idx(ch), LAMBDA i : Has(cont, ch[i].a, n))
 EntryAt(ch, cont, i, n) == cont[ch[i].a][n]
 
-\* apply_patch: md5_before guard, transformation, md5_after guard
-ApplyOne(acc, e) ==
-  IF acc.res # "ok" THEN acc
-  ELSE IF e.cls \in WellFormedCls /\ acc.c = e.before THEN Res("ok", e.after) ELSE Failed
+\* The code differs from the property-level semantics in three NAMED DEVIATIONS (each confirmed
+\* against the real code by the C08 check, see notes/C08.md):
+\*  "d1" read_patched_file collects every patch entry of the name anywhere in the chain -- also
+\*       those *below* the base -- and applies them all, lowest first;
+\*  "d2" a patch entry that cannot be parsed is skipped with a log line instead of failing the read;
+\*  "d3" apply_bsd0_patch turns a backward seek into "seek to 0" (Ptch.tla, SeekMode = "saturate"),
+\*       so a well-formed patch with a backward seek fails its md5_after guard.
+AllDevs == {"d1", "d2", "d3"}
+AppliesCls(devs) == IF "d3" \in devs THEN WellFormedCls \ {"bsd0neg"} ELSE WellFormedCls
 
-\* PROPERTY-LEVEL resolution (what C08 states): the winner is a patch; the base is the first full
-\* file below it; exactly the patches above the base apply, lowest first; every one verified.
-ResolveIdeal(ch, cont, n, w) ==
-  LET vs    == Versions(ch, cont, n)
-      below == SelectSeq(vs, LAMBDA i : i > w /\ EntryAt(ch, cont, i, n).kind = "plain")
-  IN  IF below = <<>> THEN Failed
-      ELSE LET b  == below[1]
-               ps == SelectSeq(vs, LAMBDA i : i >= w /\ i < b)            \* all patches, highest first
-           IN  FoldLeft(LAMBDA acc, i : ApplyOne(acc, EntryAt(ch, cont, i, n)),
+\* apply_patch: md5_before guard, transformation, md5_after guard
+ApplyOne(devs, acc, e) ==
+  IF acc.res # "ok" THEN acc
+  ELSE IF e.cls \in AppliesCls(devs) /\ acc.c = e.before THEN Res("ok", e.after) ELSE Failed
+
+\* Resolution of a name whose winning entry (index w) is a patch.
+\*   devs = {}      PROPERTY LEVEL: the base is the first full file below the winner; exactly the
+\*                  patches above the base apply, lowest first; every one verified; any patch that
+\*                  is not well-formed fails the read.
+\*   devs = AllDevs the shape of read_patched_file.
+Resolve(devs, ch, cont, n, w) ==
+  LET vs     == Versions(ch, cont, n)
+      plains == SelectSeq(vs, LAMBDA i : i > w /\ EntryAt(ch, cont, i, n).kind = "plain")
+  IN  IF plains = <<>> THEN Failed
+      ELSE LET b   == plains[1]
+               ps0 == SelectSeq(vs, LAMBDA i : EntryAt(ch, cont, i, n).kind = "patch"
+                                              /\ ("d1" \in devs \/ i < b))
+               ps  == SelectSeq(ps0, LAMBDA i : ~("d2" \in devs /\ EntryAt(ch, cont, i, n).cls = "garbage"))
+           IN  FoldLeft(LAMBDA acc, i : ApplyOne(devs, acc, EntryAt(ch, cont, i, n)),
                         Res("ok", EntryAt(ch, cont, b, n).c), Reverse(ps))
 
-\* CODE-SHAPED resolution (read_patched_file), with its two NAMED DEVIATIONS:
-\*  (d1) every patch entry of the name anywhere in the chain is collected -- also those *below* the base;
-\*  (d2) a patch entry that cannot be read/parsed is skipped with a log line instead of failing.
-ResolveAsCode(ch, cont, n) ==
-  LET vs     == Versions(ch, cont, n)
-      plains == SelectSeq(vs, LAMBDA i : EntryAt(ch, cont, i, n).kind = "plain")
-      ps     == SelectSeq(vs, LAMBDA i : EntryAt(ch, cont, i, n).kind = "patch"
-                                         /\ EntryAt(ch, cont, i, n).cls # "garbage")
-  IN  IF plains = <<>> THEN Failed
-      ELSE FoldLeft(LAMBDA acc, i : ApplyOne(acc, EntryAt(ch, cont, i, n)),
-                    Res("ok", EntryAt(ch, cont, plains[1], n).c), Reverse(ps))
-
 \* read_file through the map
-ReadVia(resolve(_, _), ch, cont, map, n) ==
+ReadWith(devs, ch, cont, map, n) ==
   IF n \notin DOMAIN map \/ map[n] = 0 THEN NotFound
   ELSE LET e == EntryAt(ch, cont, map[n], n)
-       IN  IF e.kind = "plain" THEN Res("ok", e.c) ELSE resolve(n, map[n])
-CodeRead(ch, cont, map, n)  == ReadVia(LAMBDA m, w : ResolveAsCode(ch, cont, m), ch, cont, map, n)
-IdealRead(ch, cont, map, n) == ReadVia(LAMBDA m, w : ResolveIdeal(ch, cont, m, w), ch, cont, map, n)
+       IN  IF e.kind = "plain" THEN Res("ok", e.c) ELSE Resolve(devs, ch, cont, n, map[n])
+CodeRead(ch, cont, map, n)  == ReadWith(AllDevs, ch, cont, map, n)
+IdealRead(ch, cont, map, n) == ReadWith({}, ch, cont, map, n)
+\* What C08 accepts as the answer `o` for name n: the ideal answer; where the ideal answer is an error
+\* ("... or an error -- never unverified bytes") also bytes that carry the digest the *winning* patch declares.
+WinnerEntry(ch, cont, map, n) == EntryAt(ch, cont, map[n], n)
+Acceptable(o, ch, cont, map, n) ==
+  LET ideal == IdealRead(ch, cont, map, n)
+  IN  \/ o = ideal
+      \/ /\ ideal.res = "err" /\ o.res = "ok"
+         /\ WinnerEntry(ch, cont, map, n).kind = "patch" /\ WinnerEntry(ch, cont, map, n).cls # "garbage"
+         /\ o.c = WinnerEntry(ch, cont, map, n).after
 ContainsSpec(map, n)   == n \in DOMAIN map /\ map[n] # 0
 FindSpec(ch, map, n)   == IF ContainsSpec(map, n) THEN ch[map[n]].a ELSE ""
 ListSpec(ch, cont)     == {n \in NamesOf(cont) : \E i \in 1..Len(ch) : Has(cont, ch[i].a, n)}
@@ -153,7 +165,7 @@ PropRead(ch, cont, n) ==
   LET w == Winner(ch, cont, n)
   IN  IF w = 0 THEN NotFound
       ELSE IF EntryAt(ch, cont, w, n).kind = "plain" THEN Res("ok", EntryAt(ch, cont, w, n).c)
-      ELSE ResolveIdeal(ch, cont, n, w)
+      ELSE Resolve({}, ch, cont, n, w)
 
 TypeOK == /\ vchain \in Seq([a : ArchIds(vcont), p : Int, st : Nat])
           /\ DOMAIN vmap = NamesOf(vcont)
@@ -165,15 +177,24 @@ MapIsWinner  == \A n \in NamesOf(vcont) : vmap[n] = Winner(vchain, vcont, n)
 ReadIsProp   == \A n \in NamesOf(vcont) : IdealRead(vchain, vcont, vmap, n) = PropRead(vchain, vcont, n)
 ListIsUnion  == ListSpec(vchain, vcont) = UNION {{n \in NamesOf(vcont) : Has(vcont, vchain[i].a, n)} : i \in 1..Len(vchain)}
 ContainsIsList == \A n \in NamesOf(vcont) : ContainsSpec(vmap, n) <=> n \in ListSpec(vchain, vcont)
-\* what the two deviations of the code can do: they only ever turn an answer into another *verified*
-\* one: the code's answer differs from the ideal one only if (d1) or (d2) is in play
+\* what the deviations of the code can do
 D1(ch, cont, n) == \E i, j \in Holders(ch, cont, n) :
                       i < j /\ EntryAt(ch, cont, i, n).kind = "plain" /\ EntryAt(ch, cont, j, n).kind = "patch"
 D2(ch, cont, n) == \E i \in Holders(ch, cont, n) : EntryAt(ch, cont, i, n).cls = "garbage"
+D3(ch, cont, n) == \E i \in Holders(ch, cont, n) : EntryAt(ch, cont, i, n).cls = "bsd0neg"
+\* (i) only where a deviation is in play can the code's answer be unacceptable
 DeviationsExplainCode ==
   \A n \in NamesOf(vcont) :
-     CodeRead(vchain, vcont, vmap, n) # IdealRead(vchain, vcont, vmap, n)
-        => D1(vchain, vcont, n) \/ D2(vchain, vcont, n)
+     ~Acceptable(CodeRead(vchain, vcont, vmap, n), vchain, vcont, vmap, n)
+        => D1(vchain, vcont, n) \/ D2(vchain, vcont, n) \/ D3(vchain, vcont, n)
+\* (ii) the safe half: d1 and d3 only ever turn answers into errors or into bytes verified against the
+\* winning patch; only d2 with an unparsable *winning* patch returns bytes no digest vouches for
+CodeSafeModuloD2 ==
+  \A n \in NamesOf(vcont) :
+     LET o == CodeRead(vchain, vcont, vmap, n)
+     IN  (vmap[n] # 0 /\ WinnerEntry(vchain, vcont, vmap, n).kind = "patch" /\ o.res = "ok"
+          /\ WinnerEntry(vchain, vcont, vmap, n).cls # "garbage")
+         => o.c = WinnerEntry(vchain, vcont, vmap, n).after
 
 \* sequential and parallel construction agree (checked over all short lists by the MC instance)
 ParallelAgrees(cont, l) ==
